@@ -6,6 +6,8 @@ Additional deviations (JSON lists, first item = kind); everything else is delega
   ["xwardx", bus, ps, pz, in_service, slack_weight]
   ["linex", from, to, {line parameter overrides}]
   ["impx", from, to, r, x, {kwargs}]                  symmetric impedance with optional gf_pu/gt_pu ...
+  ["wardx", bus, ps, qs, pz, qz]                      ward with free constant-power / constant-impedance parts
+  ["t3x", hv, mv, lv, {trafo3w parameter overrides}]  additional three-winding transformer
   ["zbus", at, p, q, zip_kind, scaling]               new bus hanging on `at` through a line, carrying ONE ZIP load
                                                       (alone on its node: recorded defect C01-zip is kept out)
 """
@@ -40,6 +42,14 @@ def apply_dev(net, d):
     elif k == "impx":
         _, fb, tb, r, x, kw = d
         pp.create_impedance(net, fb, tb, r, x, 10., **kw)
+    elif k == "wardx":
+        _, bus, ps, qs, pz, qz = d
+        pp.create_ward(net, bus, ps, qs, pz, qz)
+    elif k == "t3x":
+        _, hb, mb, lb, over = d
+        prm = dict(na.TR3)
+        prm.update(over)
+        pp.create_transformer3w_from_parameters(net, hb, mb, lb, **prm)
     elif k == "zbus":
         _, at, p, q, zk, sc = d
         nb = pp.create_bus(net, na._vn(net, at))
